@@ -192,6 +192,39 @@ func c05Tasks(repo string, seed int64, tier string) []c05task {
 			ts = append(ts, c05task{"goal", goal + " .", key, names})
 		}
 	}
+	// predicates of arity 3 and more once again over a small alphabet of extremes, exhaustively where feasible:
+	// two huge integers in one call are what index and length arithmetic has to survive
+	ext := []string{"abc", "9223372036854775807", "-9223372036854775808", "_", "1", "[a,b]", "f(x)"}
+	for _, p := range preds {
+		key := fmt.Sprintf("%s/%d", p.name, p.arity)
+		if p.arity < 3 || c05Excluded[key] {
+			continue
+		}
+		ext := ext
+		if p.arity > 3 { // above arity 3 a smaller alphabet, so that the product stays exhaustive up to arity 5
+			ext = []string{"abc", "9223372036854775807", "_", "1"}
+		}
+		total := 1
+		for a := 0; a < p.arity; a++ {
+			total *= len(ext)
+		}
+		limit := 1024
+		if tier == "thorough" {
+			limit = 4096
+		}
+		for c := 0; c < total && c < limit; c++ {
+			code := c
+			if total > limit {
+				code = r.intn(total)
+			}
+			var as []string
+			for a := 0; a < p.arity; a++ {
+				as = append(as, ext[code%len(ext)])
+				code /= len(ext)
+			}
+			ts = append(ts, c05task{"goal", quoteAtom(p.name) + "(" + strings.Join(as, ", ") + ") .", key, nil})
+		}
+	}
 	// arithmetic: every evaluable functor on operand shapes, under is/2 and the comparison predicates
 	operands := []string{"0", "1", "-1", "2", "7", "9223372036854775807", "-9223372036854775808", "1.5", "-0.0", "1.0e308", "foo", "_", "(1+1)", "63", "64", "-64"}
 	unary := []string{"+", "-", "\\", "abs", "acos", "asin", "atan", "ceiling", "cos", "exp", "float", "float_fractional_part", "float_integer_part", "floor", "log", "round", "sign", "sin", "sqrt", "tan", "truncate", "nosuch"}
